@@ -507,6 +507,7 @@ def check_C05(tier, seed):
 def check_C08(tier, seed):
     rep = Report("C08", tier, seed, "model_checking")
     mc_dimacs(rep, tier)
+    ref_neighbourhood(rep, seed + 60, "c08n_", specs=("Trace_Contract", "Trace_AigerRef", "Trace_Btor2Ref"))
     if tier == QUICK:
         parser_runs(rep, "robust", seed + 50, "c08a_", 12, 400, specs=("Trace_Contract", "Trace_AigerRef", "Trace_Btor2Ref"))
         parser_runs(rep, "sched", seed + 51, "c08b_", 6, 100)
@@ -679,6 +680,20 @@ def mc_dimacs(rep, tier):
     return res
 
 
+def ref_neighbourhood(rep, seed, prefix, specs=("Trace_AigerRef", "Trace_Btor2Ref")):
+    """MC_RefTotal (the reference readings are total and well formed on every single-byte mutation of documents reaching every
+    section) and the same neighbourhood, all of it, fed to the real parsers and held to the references."""
+    res = tlc_mc("mc_reftotal", "MC_RefTotal", "MC_RefTotal.cfg", timeout=1800, coverage=False)
+    mc_must_pass(rep, res, "MC_RefTotal")
+    total = 11895
+    shards = 12
+    parser_runs(rep, "neigh", seed, prefix, shards, (total + shards - 1) // shards, specs=specs)
+    rep.cov["mutation_neighbourhood"] = ("%d documents: three ASCII AIGER, three binary AIGER and one BTOR2 document that reach every "
+                                         "section, with every single-byte substitution / insertion (15-byte alphabet), deletion and "
+                                         "truncation; each run through the real parser and held to the reference reading "
+                                         "(accept/reject agreement, items, first offending token)" % total)
+
+
 def check_C06(tier, seed):
     rep = Report("C06", tier, seed, "model_checking")
     mc_dimacs(rep, tier)
@@ -691,7 +706,9 @@ def check_C06(tier, seed):
         parser_runs(rep, "sched", seed + 6, "c06b_", 6, 60, parsers="aag,aig", specs=("Trace_AigerRef",))
         parser_runs(rep, "sched", seed + 8, "c06c_", 6, 60, parsers="btor2", specs=("Trace_Btor2Ref",))
         parser_runs(rep, "sched", seed + 9, "c06d_", 4, 60, parsers="log", specs=("Trace_Dimacs",))
+        ref_neighbourhood(rep, seed + 10, "c06n_")
     else:
+        ref_neighbourhood(rep, seed + 10, "c06n_")
         parser_runs(rep, "sched", seed + 8, "c06c_", 14, 800, parsers="btor2", specs=("Trace_Btor2Ref",))
         parser_runs(rep, "sched", seed + 9, "c06d_", 14, 600, parsers="log", specs=("Trace_Dimacs",))
         parser_runs(rep, "bounds", seed + 4, "c06a_", 14, 4000, parsers="aag,aig", specs=("Trace_Contract", "Trace_AigerRef"))
